@@ -150,6 +150,20 @@ func Abs(r *rand.Rand, ie *entities.InfoElement, maxVar int) []int {
 		}
 		return randBytes(r, 8)
 	}
+	if ie.DataType == entities.Ipv6Address && r.Intn(4) == 0 {
+		// addresses with an embedded IPv4 address: IPv4-mapped, IPv4-compatible, NAT64
+		b := make([]int, 16)
+		switch r.Intn(3) {
+		case 0:
+			b[10], b[11] = 0xff, 0xff
+		case 2:
+			b[1], b[2], b[3] = 0x64, 0xff, 0x9b
+		}
+		for i := 12; i < 16; i++ {
+			b[i] = r.Intn(256)
+		}
+		return b
+	}
 	// integers, dates, addresses, MACs: fixed width
 	switch r.Intn(6) {
 	case 0:
